@@ -23,6 +23,9 @@ theorem spec_dist_eq (c : Nat) (hc : c < 30) :
     (by decide +kernel) c hc
   simpa using this
 
+/-- the implementation limit transcribed into the RFC side is the model's -/
+theorem spec_plainLimit_eq : Spec.implPlainLimit = PLAIN_LIMIT := rfl
+
 theorem spec_readCodeLengths_eq : ∀ (n i : Nat) (acc : List Nat) (bs : Bits),
     Spec.readCodeLengths n i acc bs = readCodeLengths n i acc bs := by
   intro n
@@ -42,7 +45,9 @@ theorem spec_decodeTokens_eq (lt dt : List (Bits × Nat)) : ∀ (fuel : Nat) (pl
   | zero => intros; rfl
   | succ fuel ih =>
     intro plain bs
-    rw [Spec.decodeTokens, decodeTokens]
+    rw [Spec.decodeTokens, decodeTokens, spec_plainLimit_eq]
+    split
+    · rfl
     cases h1 : decodeSym lt bs with
     | error e => simp only [bind, Except.bind]
     | ok p1 =>
@@ -81,7 +86,8 @@ theorem spec_decodeTokens_eq (lt dt : List (Bits × Nat)) : ∀ (fuel : Nat) (pl
 
 theorem spec_readBlock_eq (plain : Array Nat) (bs : Bits) : Spec.readBlock plain bs = readBlock plain bs := by
   simp only [Spec.readBlock, readBlock, spec_readHeader_eq, spec_decodeTokens_eq, spec_fixedLit_eq,
-    spec_fixedDist_eq]
+    spec_fixedDist_eq, spec_plainLimit_eq]
+  rfl
 
 theorem spec_readBlocks_eq : ∀ (fuel : Nat) (plain : Array Nat) (bs : Bits),
     Spec.readBlocks fuel plain bs = readBlocks fuel plain bs := by
